@@ -25,6 +25,9 @@ type histSession struct {
 	Submit    bool       `json:"submit"`
 	SizeFirst bool       `json:"size_first"`         // --history-size before --history on the command line
 	SizeEnv   bool       `json:"size_env,omitempty"` // --history-size comes from $FZF_DEFAULT_OPTS, --history from the command line
+	// SmallFirst > 0: `--history-size SmallFirst --history FILE --history-size MAX` (or the small one in
+	// $FZF_DEFAULT_OPTS): the limit in force is the last one given; the file is named while a smaller one holds
+	SmallFirst int `json:"small_first,omitempty"`
 }
 
 type histPlan struct {
@@ -77,6 +80,9 @@ func genHistPlan(r *zsim.Rng) *histPlan {
 	for s := 0; s < ns; s++ {
 		ses := histSession{Submit: r.Chance(3, 4), SizeFirst: r.Chance(1, 3)}
 		ses.SizeEnv = !ses.SizeFirst && r.Chance(1, 5)
+		if !ses.SizeFirst && !ses.SizeEnv && p.Max > 1 && r.Chance(1, 5) {
+			ses.SmallFirst = 1 + r.Intn(p.Max-1)
+		}
 		for k := r.Intn(14); k > 0; k-- {
 			st := histStep{Op: []int{0, 0, 1, 2, 0, 1, 2}[r.Intn(7)]}
 			if st.Op == 2 {
@@ -155,6 +161,10 @@ func runHist(c *runCtx) {
 		args := []string{"--history", path, "--history-size", strconv.Itoa(plan.Max)}
 		if ses.SizeFirst {
 			args = []string{"--history-size", strconv.Itoa(plan.Max), "--history", path}
+		}
+		if ses.SmallFirst > 0 && ses.SmallFirst < plan.Max && !ses.SizeFirst && !ses.SizeEnv {
+			args = append([]string{"--history-size", strconv.Itoa(ses.SmallFirst)}, args...)
+			c.count("probe.smaller_limit_given_first", 1)
 		}
 		useDefaults := false
 		if ses.SizeEnv && !ses.SizeFirst {
